@@ -219,9 +219,9 @@ impl StateMachine<'_> {
                         Some(i) => format!(
                             "{}{}",
                             &self.raw_line[..=i],
-                            tabs::expand(&self.raw_line[(i + 1)..], &self.config.tab_cfg)
+                            tabs::expand_raw(&self.raw_line[(i + 1)..], &self.config.tab_cfg)
                         ),
-                        None => tabs::expand(&self.raw_line, &self.config.tab_cfg),
+                        None => tabs::expand_raw(&self.raw_line, &self.config.tab_cfg),
                     };
                 get_code_style_sections(
                     &self.raw_line,
@@ -374,9 +374,9 @@ impl StateMachine<'_> {
                         Some(i) => format!(
                             "{}{}",
                             &self.raw_line[..=i],
-                            tabs::expand(&self.raw_line[(i + 1)..], &self.config.tab_cfg)
+                            tabs::expand_raw(&self.raw_line[(i + 1)..], &self.config.tab_cfg)
                         ),
-                        None => tabs::expand(&self.raw_line, &self.config.tab_cfg),
+                        None => tabs::expand_raw(&self.raw_line, &self.config.tab_cfg),
                     };
                 get_code_style_sections(
                     &self.raw_line,
